@@ -136,18 +136,21 @@ struct Checker<'a> {
     tensors: &'a [rten_tensor::Tensor<f32>],
     stats: &'a mut Stats,
     prefix: &'a str,
+    /// an operator-output value that the caller supplies in addition to the graph inputs
+    extra: Option<usize>,
 }
 
 impl Checker<'_> {
     fn check(&mut self, l: &Loaded, outs: &[usize], dev: &str, cfg: &RunCfg) {
-        let supplied: Vec<usize> = (0..self.p.n_inputs).collect();
+        let mut supplied: Vec<usize> = (0..self.p.n_inputs).collect();
+        supplied.extend(self.extra);
         let r = subject::run(l, self.tensors, &supplied, outs, cfg);
         self.stats.runs += 1;
         let dev = format!("{}{}", self.prefix, dev);
         *self.stats.by_dev.entry(dev.clone()).or_insert(0) += 1;
         let case = || {
             json!({"program": self.p.to_json(), "describe": self.p.describe(), "fill": self.fill, "outputs": outs,
-                   "deviation": dev, "owned_mask": cfg.owned_mask,
+                   "deviation": dev, "owned_mask": cfg.owned_mask, "supplied_intermediate": self.extra,
                    "order": cfg.order.map(|o| o.iter().map(|id| format!("{id:?}")).collect::<Vec<_>>())})
         };
         match r {
@@ -221,7 +224,7 @@ pub fn check_program(ctx: &Ctx, p: &Prog, pools: &Pools, plan2: &Plan2, stats: &
         }
         any_ok = true;
         let tensors: Vec<_> = inputs.iter().map(subject::to_tensor).collect();
-        let mut ck = Checker { ctx, p, fill, reference: &reference, tensors: &tensors, stats, prefix };
+        let mut ck = Checker { ctx, p, fill, reference: &reference, tensors: &tensors, stats, prefix, extra: None };
         let dflt = RunCfg { owned_mask: 0, pool: None, order: None };
         // Box A: every non-empty subset of the valid values, default strategy.
         let nv = valid.len().min(7);
@@ -270,6 +273,39 @@ pub fn check_program(ctx: &Ctx, p: &Prog, pools: &Pools, plan2: &Plan2, stats: &
                                 ck.check(&l, outs, "alt-order+owned-inputs", &RunCfg { owned_mask: m, pool: None, order: Some(ord) });
                             }
                         }
+                    }
+                }
+            }
+        }
+        // Box C: the caller also supplies an operator-output value (contents = computed + 16),
+        // as a view or as an owned tensor; the naive evaluator uses the supplied value for
+        // everything downstream and returns it when it is requested.
+        if replay_filter.map(|f| !f["supplied_intermediate"].is_null()).unwrap_or(true) {
+            for &v in &valid_ops {
+                if let Some(f) = replay_filter {
+                    if f["supplied_intermediate"].as_u64() != Some(v as u64) {
+                        continue;
+                    }
+                }
+                let computed = reference[v].as_ref().unwrap();
+                let over = NArr { shape: computed.shape.clone(), data: computed.data.iter().map(|x| x + 16.0).collect() };
+                let reference2 = prog::eval_over(p, &inputs, Some((v, &over)));
+                let valid2: Vec<usize> = (0..p.n_values()).filter(|&x| reference2[x].is_some()).collect();
+                let last2: Vec<usize> = valid2.iter().copied().filter(|&x| p.producer(x).is_some()).last().into_iter().collect();
+                let mut arrs: Vec<NArr> = inputs.clone();
+                while arrs.len() < v {
+                    arrs.push(NArr { shape: vec![0], data: vec![] });
+                }
+                arrs.push(over.clone());
+                let tensors2: Vec<_> = arrs.iter().map(subject::to_tensor).collect();
+                let mut ck2 = Checker { ctx, p, fill, reference: &reference2, tensors: &tensors2, stats: &mut *stats, prefix, extra: Some(v) };
+                let mut sets = vec![valid2.clone(), last2];
+                sets.dedup();
+                for outs in sets.iter().filter(|o| !o.is_empty()) {
+                    ck2.check(&l, outs, "supplied-intermediate", &dflt);
+                    ck2.check(&l, outs, "supplied-intermediate(owned)", &RunCfg { owned_mask: 1u32 << v, ..dflt_cfg() });
+                    if plan2.pairs {
+                        ck2.check(&l, outs, "supplied-intermediate(all owned)", &RunCfg { owned_mask: (1u32 << (v + 1)) - 1, ..dflt_cfg() });
                     }
                 }
             }
@@ -387,7 +423,7 @@ pub fn run(ctx: Ctx) -> ! {
     let cov = json!({
         "evaluations": st.runs + child_runs,
         "distinct_nontrivial": st.programs_ref_ok,
-        "rule": "all programs of the grammar (<=2 ops over 13 operator kinds incl. If with captures and If with branch-local MatMul weights; 3 ops over a reduced kind set, dead-code-free; thorough adds 4 ops) x 2 input fills; non-trivial = programs for which the naive evaluator produces at least one operator output",
+        "rule": "all programs of the grammar (each also run with every operator-output value supplied by the caller as a view / owned tensor; <=2 ops over 13 operator kinds incl. If with captures and If with branch-local MatMul weights; 3 ops over a reduced kind set, dead-code-free; thorough adds 4 ops) x 2 input fills; non-trivial = programs for which the naive evaluator produces at least one operator output",
         "samples": samples.take(),
         "exhaustive": true,
         "programs": st.programs,
